@@ -39,8 +39,7 @@ def c17ValStr : Val → String
 def c17MagStr (m : Mag) : String :=
   if m.isEmpty then "1" else ",".intercalate (m.map (fun a => s!"{a.1}^{a.2}"))
 
-def c17OutB : Outcome Bool → String
-  | .ok true => "true" | .ok false => "false" | .hard _ => "hard"
+def c17OutB (b : Bool) : String := if b then "true" else "false"
 
 def c17ResStr : Res OpVal → String
   | .ok (.b v) => s!"b:{b01 v}"
@@ -121,9 +120,7 @@ def c17Ops (args : List String) : String :=
         let ch := fun (op : Op) => chronoOp rne op d1 d2
         let opsStr := " ".intercalate (Op.all.map (fun op =>
           s!"au_{op.name}={c17ResStr (au op)} ch_{op.name}={c17ResStr (ch op).val}"))
-        let pol := match (if leftIsQ then policyCompiles q1 q2 else policyCompiles q1 q2) with
-          | .ok () => "ok" | .hard _ => "hard"
-        s!"compiles={comp} policy={pol} crep={cr.name} cnum={(Mag.numerator cm).natValue} cden={(Mag.denominator cm).natValue} " ++
+        s!"compiles={comp} crep={cr.name} cnum={(Mag.numerator cm).natValue} cden={(Mag.denominator cm).natValue} " ++
         s!"k1={if k1.isInteger then toString k1.natValue else "-"} k2={if k2.isInteger then toString k2.natValue else "-"} " ++
         s!"cpn={cp.num} cpd={cp.den} narrowed={b01 (ch Op.eq).narrowed} " ++ opsStr
       | _, _ => "bad-op"
